@@ -20,13 +20,6 @@ def withP (c : Cfg) (q : Nat) : Cfg := { c with P := q }
 theorem withP_self (c : Cfg) : withP c c.P = c := rfl
 theorem withP_withP (c : Cfg) (q r : Nat) : withP (withP c q) r = withP c r := rfl
 
-/-- the static assertions of `change_precision` on a precision -/
-def PrecOk (W S q : Nat) : Prop := 1 ≤ q ∧ q ≤ W ∧ W + q ≤ S
-
-theorem CValid.precOk {c : Cfg} (h : CValid c) : PrecOk c.W c.S c.P := by
-  obtain ⟨h1, h2, h3, h4⟩ := h
-  exact ⟨h1, by omega, h4⟩
-
 theorem changePrecision_spec {c : Cfg} {q : Nat} (hP : PrecOk c.W c.S c.P)
     (hQ : PrecOk c.W c.S q) {x : Coder} (hx : Inv c x) :
     (changePrecision c q x = .error .outOfRemainders ∧ x.remainders = [] ∧ q < c.P ∧
